@@ -315,4 +315,19 @@ theorem randQ_inj (sid : Bytes) (j k r r' : ℕ) (hr : r < 2 ^ LAMBDA_C) (hr' : 
     Transcript.mk.injEq, List.append_cancel_right_eq, true_and] at hq
   simpa using hq
 
+/-- the driver's memoised verdict (`checkAllQ` on precomputed row check values) is the model's `checkAll` -/
+theorem checkAllQ_eq (chi w : List ℕ) (nabla : ℕ) (msg : Round1Output) (hw : w.length = LAMBDA_C) :
+    checkAllQ (w.map (checkRow chi)) nabla msg = checkAll chi w nabla msg := by
+  have key : ∀ i < LAMBDA_C, (w.map (checkRow chi)).getD i 0 = checkRow chi (w.getD i 0) := by
+    intro i hi
+    have hi' : i < w.length := by rw [hw]; exact hi
+    rw [List.getD_eq_getElem _ _ (by simpa using hi'), List.getD_eq_getElem _ _ hi']
+    simp
+  rw [Bool.eq_iff_iff, checkAll_iff]
+  unfold checkAllQ
+  simp only [List.all_eq_true, List.mem_range, beq_iff_eq]
+  constructor
+  · intro hall i hi; rw [← key i hi]; exact hall i hi
+  · intro hall i hi; rw [key i hi]; exact hall i hi
+
 end SlVerif.SoftSpoken
